@@ -56,6 +56,7 @@ def kindTable : List (String × Kind) := [
   ("reshape_to_n_dims", .read), ("slice", .read), ("slice_2d", .read), ("reduce_mem", .read),
   ("get_unit_values", .read), ("get_pos_values", .read), ("get_spec_values", .read), ("get_sort_order", .read),
   ("get_dimensionality", .read), ("getitem", .read), ("labels_sizes", .read), ("get_current_sorting", .read),
+  ("process_construct", .read),
   ("toggle_sorting", .toggle),
   ("create_indexed_group", .write), ("create_results_group", .write), ("write_ind_val_dsets", .write),
   ("write_main_dataset", .write), ("create_empty_dataset", .write), ("slice_to_dataset", .write),
